@@ -14,6 +14,7 @@
 
 //! Elixir exception type support.
 
+use crate::int_field::narrow_field;
 use erltf::{Atom, OwnedTerm};
 use std::collections::BTreeMap;
 
@@ -321,9 +322,7 @@ impl UndefinedFunctionError {
             .get(&OwnedTerm::Atom(Atom::new("function")))?
             .atom_name()?
             .to_string();
-        let arity = map
-            .get(&OwnedTerm::Atom(Atom::new("arity")))?
-            .as_integer()? as u8;
+        let arity = narrow_field::<u8>(map.get(&OwnedTerm::Atom(Atom::new("arity")))?)?;
         let reason = map
             .get(&OwnedTerm::Atom(Atom::new("reason")))
             .and_then(|v| v.as_erlang_string());
@@ -585,8 +584,7 @@ impl FunctionClauseError {
 
         let arity = map
             .get(&OwnedTerm::Atom(Atom::new("arity")))
-            .and_then(|a| a.as_integer())
-            .map(|a| a as u8);
+            .and_then(narrow_field::<u8>);
 
         let args = map
             .get(&OwnedTerm::Atom(Atom::new("args")))
